@@ -8,6 +8,9 @@ BASE_NOTE = "Trusted base: Go 1.26.8 toolchain (testing/synctest for the virtual
 
 # property -> (technique, level text, design ref, extra note)
 CLAIMED = {
+ "C11": ("history search in a synctest bubble: scripted peer injects numbered messages; handlers return, block on nested requests on their own connection, or block on a gate; multiset/order oracle over the handler log",
+         "8k (quick) / 200k (thorough) generated event histories on datagram and stream connections with receive queues 0/1/16, nesting to three sequential blocking requests per handler and several handlers blocked at once, concurrent application requests and close at a generated point; quiescence after each event makes 'dispatched exactly once' and 'the nested request completes' decidable.",
+         "DESIGN.md 3/C11", ""),
  "C03": ("schedule/history search in a synctest bubble: concurrent callers against a scripted wire-level peer that answers in generated order and style; payload = f(request index, token) as cross-delivery oracle",
          "8k (quick) / 200k (thorough) generated scenarios on datagram and stream connections, block-wise on/off, concurrent or serialised, with token families built to collide as far as byte strings can, separate/early/delayed/duplicated responses, stray responses with prefix/extension tokens and duplicate-token requests.",
          "DESIGN.md 3/C03", "DTLS/TLS share the connection layer with the in-memory transports; hash collisions of Token.Hash() are not constructed."),
